@@ -9,7 +9,10 @@ TRUSTED_BASE = [
 ]
 ASSUMPTIONS = TRUSTED_BASE + [
     "ensemble_engines / engine sections are explored for four concrete shapes (defined, undefined, two gromacs engines with same / different input_path); all other fields are symbolic (any number of interfaces and moves)",
-    "NOT decided: 'every accepted configuration initialises' beyond check_config itself (depends on the initial paths on disk and on engine construction), and the fixed-point clause of setup_config's defaulting block (inside a function doing file I/O, outside the E1 subset)",
+    "proved per shape (2..4 interfaces, every present/absent combination of the five keywords, values symbolic): the default-filling block of setup_config -- extracted mechanically from the real AST between the statement binding "
+    "`has_ens_engs` and the call of check_config -- defines every keyword, keeps given values, and is a FIXED POINT: executed twice (the statements, a ghost snapshot, the same statements), the second pass changes nothing. "
+    "The rest of setup_config (reading the toml files, the `current` section, write_header) is file I/O and not verified; tomli / tomli_w round trip: A-EXT",
+    "NOT decided: 'every accepted configuration initialises' beyond check_config itself (depends on the initial paths on disk and on engine construction)",
 ]
 EXPLANATION = (
     "check_config is executed symbolically on the real AST with interfaces and shooting moves as sequences of symbolic length, cap / lambda_minus_one / quantis present or absent: "
@@ -22,8 +25,60 @@ EXPLANATION = (
 def jobs(tier):
     return [
         ("e1", {"name": "check_config", "registry": "contracts.setup_cfg", "key": "check_config", "clause": "accept => Valid(cfg); reject => TOMLConfigError", "cost": 5, "parallel": 8}),
+        ("e1", {"name": "setup_config_defaults", "registry": "contracts.setup_norm", "key": "setup_config#defaults", "clause": "normalisation defines every keyword and keeps given values", "cost": 2, "parallel": 4}),
+        ("e1", {"name": "setup_config_fixed_point", "registry": "contracts.setup_norm", "key": "setup_config#fixed_point", "clause": "normalising a normalised configuration changes nothing", "cost": 2, "parallel": 4}),
         ("py", {"name": "native_crosscheck", "module": "props.C18", "fn": "native_crosscheck"}),
     ]
+
+
+def _norm_native(case):
+    """Execute the extracted block of the real setup_config natively (twice) on a concrete configuration of the given case."""
+    import ast
+    import copy
+    import os
+    from contracts.setup_norm import _block
+    from pyvc.interp import find_def
+    n = int(case[1])
+    ee, seed, qu, lm1, aa = [c == "1" for c in case.split("_")[1]]
+    blk = ast.Module(body=_block(find_def("infretis/setup.py", "setup_config")), type_ignores=[])
+    code = compile(ast.fix_missing_locations(blk), "<setup_config block>", "exec")
+    errs = []
+    for quantis in (False, True):
+        sim = {"interfaces": [0.1 * k for k in range(n)], "tis_set": {"maxlength": 100}}
+        if ee:
+            sim["ensemble_engines"] = [["engine0"]] + [["engine"] for _ in range(n - 1)]
+        if seed:
+            sim["seed"] = 7
+        if qu:
+            sim["tis_set"]["quantis"] = quantis
+        if lm1:
+            sim["tis_set"]["lambda_minus_one"] = -0.5
+        if aa:
+            sim["tis_set"]["accept_all"] = True
+        cfg = {"simulation": sim}
+        entry = copy.deepcopy(cfg)
+        env = {"config": cfg, "os": os}
+        exec(code, env)
+        first = copy.deepcopy(cfg)
+        exec(code, env)
+        s1, t1 = first["simulation"], first["simulation"]["tis_set"]
+        if cfg != first:
+            errs.append(f"second pass changed the configuration: {first} -> {cfg}")
+        if not all(k in s1 for k in ("ensemble_engines", "seed")) or not all(k in t1 for k in ("quantis", "lambda_minus_one", "accept_all")):
+            errs.append("a keyword is still undefined after the first pass")
+        for k in ("seed", "ensemble_engines"):
+            if k in entry["simulation"] and s1[k] != entry["simulation"][k]:
+                errs.append(f"given {k} was not kept")
+        for k in ("quantis", "lambda_minus_one", "accept_all"):
+            if k in entry["simulation"]["tis_set"] and t1[k] != entry["simulation"]["tis_set"][k]:
+                errs.append(f"given {k} was not kept")
+    return errs
+
+
+def _search_norm(obname):
+    case = obname.split("/")[1]
+    errs = _norm_native(case)
+    return {"witness": {"case": case, "function": "setup_config block"}, "native": {"reproduced": True, "violations": errs, "detail": errs[:3]}} if errs else None
 
 
 def _valid(cfg):
@@ -55,6 +110,9 @@ def _run(cfg):
 
 
 def replay(obname, w):
+    if obname.startswith("setup_config#"):
+        hit = _search_norm(obname)
+        return hit["native"] if hit else {"reproduced": False, "detail": "the extracted block behaves as specified natively for this case"}
     if not w or "config" not in w:
         return {"reproduced": False, "detail": "no witness"}
     cfg = w["config"]
@@ -79,6 +137,8 @@ def _grid():
 
 
 def search(obname, limit=None):
+    if obname.startswith("setup_config#"):
+        return _search_norm(obname)
     for cfg in _grid():
         r = _run(cfg)
         if r["reproduced"]:
